@@ -19,18 +19,33 @@ def _pool(tier):
     return base
 
 
+def _far(draw, case, D):
+    """Far-mean regime (a sixth of the cases): the mean lies 1e4 / 1e6 standard deviations from the origin.  Covariances,
+    precisions and log-determinants of the results do not depend on it and are judged at their own scale; the log-density
+    comparisons are skipped there (information-form evaluation legitimately loses eps * |mu|^2 / sigma^2)."""
+    far = draw(st.sampled_from([0.0] * 5 + [1e4, 1e6]))
+    if far:
+        Sig = np.asarray(case["p"]["Sigma"], float)
+        sd = np.sqrt(np.einsum("rii->ri", Sig))
+        d = draw(gen.arr(sd.shape, 0.5, 1.5)) * np.where(draw(gen.arr(sd.shape, -1, 1)) < 0, -1.0, 1.0)
+        case["p"] = dict(case["p"], mu=np.asarray(case["p"]["mu"], float) + far * sd * d)
+    case["far"] = far
+
+
 def _strategy_marg(shapes):
     @st.composite
     def s(draw):
         D, R, N = draw(st.sampled_from(shapes))
         diag = draw(st.booleans())
         dims = draw(gen.perm_prefix(D))
-        return {"D": D, "R": R, "N": N, "diag": diag, "dims": dims,
+        case = {"D": D, "R": R, "N": N, "diag": diag, "dims": dims,
                 "p": draw(gen.measure_params("diag_pdf" if diag else "pdf", R, D, draw(st.sampled_from([10.0, 100.0])), extreme="wide" if D >= 17 else True)),
                 "upd": draw(gen.maybe_update("diag_pdf" if diag else "pdf", R, D)),
                 "x": draw(gen.arr((N, len(dims)), -3, 3)),
                 # a second, different query on the same object (a result remembered from the first must not leak)
                 "dims2": draw(gen.perm_prefix(D)), "x2": draw(gen.arr((2, D), -3, 3))}
+        _far(draw, case, D)
+        return case
     return s()
 
 
@@ -56,9 +71,16 @@ def _run_marg(case):
     # evaluation points in the density's own units: component 0's mean + z standard deviations
     x = mu_m[0] + np.asarray(case["x"], float) * sd0[dims]
     want, scale = oracle.mvn_ln(x, mu_m, Sig_m)
-    ok, got = lib(fails, "get_marginal.evaluate_ln", lambda: m.evaluate_ln(J(x)))
+    far = bool(case.get("far"))
+    ok, got = (False, None) if far else lib(fails, "get_marginal.evaluate_ln", lambda: m.evaluate_ln(J(x)))
     if ok:
         check(fails, "marginal:law", got, want, scale)
+    kapm = np.maximum(1.0, oracle.cond(Sig_m))
+    if np.all(kapm < 1e6):
+        check(fails, "marginal:Sigma_Lambda_identity", np.einsum("rij,rjk->rik", Sig_m, np.asarray(m.Lambda)),
+              np.broadcast_to(np.eye(len(dims)), Sig_m.shape), kapm[:, None, None] * np.ones_like(Sig_m))
+        ldm, ldms = oracle.slogdet_spd(Sig_m)
+        check(fails, "marginal:ln_det_Sigma", np.asarray(m.ln_det_Sigma), ldm, ldms)
     check(fails, "marginal:mu", np.asarray(m.mu), mu_m, 1 + np.abs(mu_m))
     check(fails, "marginal:Sigma", np.asarray(m.Sigma), Sig_m, np.abs(Sig_m).max((1, 2))[:, None, None] * np.ones_like(Sig_m))
     # integral of the joint density over the remaining coordinates (information form, Schur complement)
@@ -86,7 +108,9 @@ def _run_marg(case):
         d2 = list(case["dims2"])
         x2 = mu[0, d2] + np.asarray(case["x2"], float)[:, d2] * sd0[d2]
         ok2, m2 = lib(fails, "get_marginal_second", lambda: p.get_marginal(libx.IDX(d2)))
-        if ok2:
+        if ok2 and far:
+            check(fails, "marginal:second_query_Sigma", np.asarray(m2.Sigma), Sig[:, d2][:, :, d2], np.abs(Sig[:, d2][:, :, d2]).max((1, 2))[:, None, None] * np.ones((R, len(d2), len(d2))))
+        elif ok2:
             w2, s2 = oracle.mvn_ln(x2, mu[:, d2], Sig[:, d2][:, :, d2])
             ok2, g2 = lib(fails, "get_marginal_second.evaluate_ln", lambda: m2.evaluate_ln(J(x2)))
             if ok2:
@@ -111,7 +135,7 @@ def _nontrivial_marg(case):
 
 def _labels_marg(case):
     d = case["dims"]
-    return [f"diag={case['diag']}", "all_coords" if len(d) == case["D"] else "subset", "unsorted" if d != sorted(d) else "sorted", "after_update" if case.get("upd") else "fresh", "D>=17" if case["D"] >= 17 else "D<=8"]
+    return [f"diag={case['diag']}", "all_coords" if len(d) == case["D"] else "subset", "unsorted" if d != sorted(d) else "sorted", "after_update" if case.get("upd") else "fresh", "D>=17" if case["D"] >= 17 else "D<=8", f"far_mean={case.get('far', 0.0):g}"]
 
 
 def _strategy_lin(shapes):
@@ -126,11 +150,13 @@ def _strategy_lin(shapes):
         W = draw(gen.spd(Rw, D, kappa=20.0, lam_lo=0.5, lam_hi=2.0))[:, :K, :]
         sgn = draw(gen.arr((Rw, K, 1), -1, 1))
         W = W * np.where(sgn < 0, -1.0, 1.0)
-        return {"D": D, "R": R, "N": N, "K": K, "combo": combo, "diag": diag, "W": W,
+        case = {"D": D, "R": R, "N": N, "K": K, "combo": combo, "diag": diag, "W": W,
                 "b": draw(st.one_of(st.none(), gen.arr((Rw, K)))),
                 "p": draw(gen.measure_params("diag_pdf" if diag else "pdf", Rp, D, draw(st.sampled_from([10.0, 100.0])))),
                 "upd": draw(gen.maybe_update("diag_pdf" if diag else "pdf", Rp, D)),
                 "z": draw(gen.arr((N, K), -3, 3))}
+        _far(draw, case, D)
+        return case
     return s()
 
 
@@ -166,9 +192,13 @@ def _run_lin(case):
     if int(q.R) != R:
         fails.append(Failure("linear_sum:R", f"linear sum has R={q.R}, expected {R}"))
         return fails
-    ok, got = lib(fails, "linear_sum.evaluate_ln", lambda: q.evaluate_ln(J(z)))
+    ok, got = (False, None) if case.get("far") else lib(fails, "linear_sum.evaluate_ln", lambda: q.evaluate_ln(J(z)))
     if ok:
         check(fails, "linear_sum:law", got, want, scale)
+    kq = np.maximum(1.0, oracle.cond(S))
+    check(fails, "linear_sum:Sigma_Lambda_identity", np.einsum("rij,rjk->rik", S, np.asarray(q.Lambda)), np.broadcast_to(np.eye(S.shape[1]), S.shape), kq[:, None, None] * np.ones_like(S))
+    ldq, ldqs = oracle.slogdet_spd(S)
+    check(fails, "linear_sum:ln_det_Sigma", np.asarray(q.ln_det_Sigma), ldq, ldqs)
     check(fails, "linear_sum:mu", np.asarray(q.mu), m, 1 + np.abs(m))
     check(fails, "linear_sum:Sigma", np.asarray(q.Sigma), S, np.abs(S).max((1, 2))[:, None, None] * np.ones_like(S))
     if b is not None and not np.array_equal(np.asarray(bJ), b_before):
@@ -183,7 +213,7 @@ def _nontrivial_lin(case):
 
 
 def _labels_lin(case):
-    return [f"combo={case['combo']}", "b" if case["b"] is not None else "no_b", f"diag={case['diag']}", "K=D" if case["K"] == case["D"] else "K<D", "D>=17" if case["D"] >= 17 else "D<=8"]
+    return [f"combo={case['combo']}", "b" if case["b"] is not None else "no_b", f"diag={case['diag']}", "K=D" if case["K"] == case["D"] else "K<D", "D>=17" if case["D"] >= 17 else "D<=8", f"far_mean={case.get('far', 0.0):g}"]
 
 
 SUBS = [
